@@ -137,8 +137,17 @@ def run_case(case, ctx):
         return U[:, :k], S[:k], V[:k, :]
 
     kw = {}
+    n_over = 5
     if method == "randomized_svd":
         kw = {"random_state": seed}
+        # the documented tuning knobs: power iterations (0 = none) and oversampling
+        ni = gen.choice(rs, [None, None, 0, 1, 4])
+        if ni is not None:
+            kw["n_iter"] = int(ni)
+        if rs.rand() < 0.3:
+            n_over = 10
+            kw["n_oversamples"] = n_over
+        desc["randomized_kwargs"] = {k: v for k, v in kw.items() if k != "random_state"}
     meth_arg = np_svd if method == "callable" else method
     sym = method == "symeig_svd"
     rnd = method == "randomized_svd"
@@ -176,7 +185,7 @@ def run_case(case, ctx):
                 nonneg, "NaN" if nan else "negative", np.nanmin(U) if U.size else None, np.nanmin(V) if V.size else None))
         return  # the remaining clauses are about the plain SVD
 
-    if rnd and min(n + 5, mx) < numrank:
+    if rnd and min(n + n_over, mx) < numrank:
         ctx.skip("randomized_svd: requested rank + oversampling does not cover the matrix rank (outside the guarantee)")
         return
 
